@@ -235,6 +235,35 @@ func MakeAlphabet(rng *rand.Rand, n int) []string {
 	return out
 }
 
+// MakeNumericAlphabet returns n distinct keys of the form "r<decimal>" in byte order. Many of them are
+// prefixes of each other (r1, r10, r100, r1000): byte order differs from numeric order, and a scan
+// cursor or range end built from a key must not swallow the keys it is a prefix of. A few keys with
+// 0x00 / 0xff tails are mixed in.
+func MakeNumericAlphabet(rng *rand.Rand, n int) []string {
+	set := map[string]bool{}
+	for i := 1; len(set) < n && i <= 9; i++ { // r1 .. r9 and their powers of ten
+		for p, v := 0, i; p < 6 && len(set) < n; p, v = p+1, v*10 {
+			set[fmt.Sprintf("r%d", v)] = true
+		}
+	}
+	for len(set) < n {
+		k := fmt.Sprintf("r%d", rng.Intn(20*n)+1)
+		switch rng.Intn(12) {
+		case 0:
+			k += "\x00"
+		case 1:
+			k += "\xff"
+		}
+		set[k] = true
+	}
+	out := make([]string, 0, n)
+	for k := range set {
+		out = append(out, k)
+	}
+	sort.Strings(out)
+	return out
+}
+
 // New builds a world with its initial layout; every initial region emits one snapshot (step 0).
 func New(rng *rand.Rand, cfg Config) *World {
 	if cfg.EmitP == 0 {
@@ -426,6 +455,31 @@ func (w *World) Step() {
 		}
 	}
 	w.idle()
+}
+
+// Do applies one event of the given kind to a random feasible target; false when none is feasible.
+// Kinds: split merge add-learner promote remove-peer leader-change size-flow pending-down idle.
+func (w *World) Do(kind string) bool {
+	w.step++
+	switch kind {
+	case "split":
+		return w.split()
+	case "merge":
+		return w.merge()
+	case "add-learner":
+		return w.addLearner()
+	case "promote":
+		return w.promote()
+	case "remove-peer":
+		return w.removePeer()
+	case "leader-change":
+		return w.leaderChange()
+	case "size-flow":
+		return w.sizeFlow()
+	case "pending-down":
+		return w.pendingDown()
+	}
+	return w.idle()
 }
 
 func (w *World) pick() (int, *Region) {
